@@ -31,7 +31,7 @@ OUT="$ROOT/build/lib/$V-$KEY"
 if [ -f "$OUT/.done" ]; then echo "$OUT"; exit 0; fi
 # keep the cache small: drop older builds of the same variant
 mkdir -p "$ROOT/build/lib"
-for d in "$ROOT"/build/lib/$V-*; do [ -d "$d" ] && [ "$d" != "$OUT" ] && rm -rf "$d"; done
+for d in $(ls -dt "$ROOT"/build/lib/$V-* 2>/dev/null | tail -n +3); do [ -d "$d" ] && [ "$d" != "$OUT" ] && rm -rf "$d"; done
 TMP="$OUT.tmp.$$"; rm -rf "$TMP"; mkdir -p "$TMP"
 cd "$TMP"
 bison -o sgramm.c "$REPO/src/sgramm.y" 2>bison.log || { cat bison.log >&2; exit 2; }
